@@ -184,8 +184,16 @@ def parallel(modname, fname, jobs, nproc=None):
         res = [_job_runner((modname, fname, j)) for j in jobs]
     else:
         ctxm = multiprocessing.get_context("fork")
+        limit = float(os.environ.get("VERIF_JOB_TIMEOUT", "7200"))       # a safety net only (never a verdict): see below
         with ctxm.Pool(min(nproc, len(jobs))) as p:
-            res = p.map(_job_runner, [(modname, fname, j) for j in jobs], chunksize=1)
+            ar = p.map_async(_job_runner, [(modname, fname, j) for j in jobs], chunksize=1)
+            try:
+                res = ar.get(timeout=limit)
+            except multiprocessing.TimeoutError:
+                p.terminate()
+                raise MachineryFailure("recorder jobs %s.%s did not finish within %.0f s: a call into the library does not return "
+                                       "(only C10 runs the library under its watchdogs; elsewhere this is reported as a machinery "
+                                       "failure, not as a verdict)" % (modname, fname, limit))
     out = []
     for st, val in res:
         if st != "ok":
